@@ -211,6 +211,33 @@ def regenerate():
             + clist([f"({cstr(c)}, {cstr(m)}, {clist([f'({cstr(a)}, {cstr(k)})' for a, k in ev])})" for c, m, ev in events]) + ".", ""]
     if common.write_if_changed(common.GEN / "Inventory_gen.v", "\n".join(inv) + "\n"):
         written.append("Inventory_gen")
+    # electron-counting tables of the protonator and of the bond maker (dict literals assigned to self.<name> in __init__)
+    def self_dicts(path, names):
+        out = {}
+        for n in ast.walk(ast.parse((common.REPO / "propka" / path).read_text())):
+            if isinstance(n, ast.Assign) and len(n.targets) == 1 and isinstance(n.targets[0], ast.Attribute) and n.targets[0].attr in names \
+                    and isinstance(n.value, ast.Dict):
+                try:
+                    out[n.targets[0].attr] = list(ast.literal_eval(n.value).items())
+                except ValueError:
+                    TABLE_ERRORS[n.targets[0].attr] = "non-literal entry"
+        for nm in names:
+            if nm not in out:
+                TABLE_ERRORS[nm] = "dict literal not found"
+        return out
+    pd = self_dicts("protonate.py", ("valence_electrons", "standard_charges", "bond_lengths"))
+    bd = self_dicts("bonds.py", ("num_pi_elec_bonds_backbone", "num_pi_elec_conj_bonds_backbone", "num_pi_elec_bonds_sidechains", "num_pi_elec_conj_bonds_sidechains"))
+    zl = lambda kv: clist([f"({cstr(k)}, ({int(v)})%Z)" for k, v in kv if float(v) == int(float(v))])
+    pt = ["(* GENERATED by tools/vlib/tables.py from propka/protonate.py and propka/bonds.py - do not edit *)",
+          "From Coq Require Import String List ZArith.", "Import ListNotations.", "Open Scope string_scope.", "",
+          "Definition valence_electrons : list (string * Z) :=\n  " + zl(pd.get("valence_electrons", [])) + ".",
+          "Definition standard_charges : list (string * Z) :=\n  " + zl(pd.get("standard_charges", [])) + ".",
+          "Definition pi_backbone : list (string * Z) :=\n  " + zl(bd.get("num_pi_elec_bonds_backbone", [])) + ".",
+          "Definition piconj_backbone : list (string * Z) :=\n  " + zl(bd.get("num_pi_elec_conj_bonds_backbone", [])) + ".",
+          "Definition pi_sidechains : list (string * Z) :=\n  " + zl(bd.get("num_pi_elec_bonds_sidechains", [])) + ".",
+          "Definition piconj_sidechains : list (string * Z) :=\n  " + zl(bd.get("num_pi_elec_conj_bonds_sidechains", [])) + ".", ""]
+    if common.write_if_changed(common.GEN / "Protonate_gen.v", "\n".join(pt) + "\n"):
+        written.append("Protonate_gen")
     cfg = (common.REPO / "propka" / "propka.cfg").read_text()
     lines = cfg.split("\n")
     body = ["(* GENERATED by tools/vlib/tables.py from propka/propka.cfg, parameters.py, group.py - do not edit *)",
